@@ -219,11 +219,13 @@ theorem search_of_lit (rx : List Alt) (l : Str) (h : Alt.lit l ∈ rx) (s : Str)
 /-- What the proofs need from the regex of the current source (checked against `Generated.C20`):
     it rejects every id that contains `/` or the two-character sequence `..`. -/
 theorem rejectRx_has_slash : ∃ cs, Alt.cls cs ∈ rejectRx ∧ '/' ∈ cs := by
-  refine ⟨['\\', '/'], ?_, by decide⟩
-  simp [rejectRx, rejectAlts, altOfGenerated]
+  have h : rejectRx.any (fun a => match a with | .cls cs => cs.contains '/' | .lit _ => false) = true := by decide
+  obtain ⟨a, ha, hc⟩ := List.any_eq_true.1 h
+  cases a with
+  | cls cs => exact ⟨cs, ha, by simpa using hc⟩
+  | lit l => simp at hc
 
-theorem rejectRx_has_dotdot : Alt.lit dotdot ∈ rejectRx := by
-  simp [rejectRx, rejectAlts, altOfGenerated, dotdot]
+theorem rejectRx_has_dotdot : Alt.lit dotdot ∈ rejectRx := by decide
 
 theorem not_bad_no_slash {id : Str} (h : bad id = false) : '/' ∉ id := by
   intro hm
